@@ -232,8 +232,8 @@ class Run:
             hc = os.path.join(ud, 'h.c')
             open(hc, 'w').write(self.make_harness(unit, info, cname))
             defs = ['-DVERIF_CBMC']
-            if unit.mode in ('uf', 'fuf'): defs.append('-DVERIF_UF')
-            if unit.mode == 'fuf': defs.append('-DVERIF_FUF')
+            if unit.mode == 'uf': defs.append('-DVERIF_UF')
+            if unit.mode == 'fuf': defs.append('-DVERIF_FUF')       # float ops / <cmath> uninterpreted; integer index arithmetic stays bit-precise
             rc, out, err, dt = sh(['goto-cc'] + defs + ['-I', VERIF, hc, '-o', os.path.join(ud, 'h.gb')], timeout=300)
             if rc != 0: raise Undecided('goto-cc failed for %s: %s' % (unit.name, (err + out)[-3000:]))
             # code loops without a loop contract must be unwound before dfcc (constant-trip loops only; see README)
@@ -349,7 +349,7 @@ def _run_lemma_unit(self, unit, info, res, t0):
     lines += ['  __CPROVER_assert(%s(%s), "lemma %s");' % (unit.lemma, ', '.join(names), unit.lemma),
               '  __CPROVER_assert(0, "VERIF_CANARY reachability of the end of the harness");', '  return 0;', '}']
     hc = os.path.join(ud, 'h.c'); open(hc, 'w').write('\n'.join(lines))
-    defs = ['-DVERIF_CBMC'] + (['-DVERIF_UF'] if unit.mode in ('uf', 'fuf') else []) + (['-DVERIF_FUF'] if unit.mode == 'fuf' else [])
+    defs = ['-DVERIF_CBMC'] + (['-DVERIF_UF'] if unit.mode == 'uf' else []) + (['-DVERIF_FUF'] if unit.mode == 'fuf' else [])
     rc, out, err, dt = sh(['goto-cc'] + defs + ['-I', VERIF, hc, '-o', os.path.join(ud, 'h.gb')], timeout=300)
     if rc != 0: raise Undecided('goto-cc failed for %s: %s' % (unit.name, (err + out)[-2000:]))
     cb = ['cbmc', os.path.join(ud, 'h.gb'), '--json-ui', '--trace', '--unwind', str(unit.unwind or 10), '--unwinding-assertions'] + CBMC_CHECKS + unit.extra
